@@ -52,6 +52,7 @@ import (
 	"sync"
 	"syscall"
 	"time"
+	"unsafe"
 
 	"github.com/rminnich/go9p"
 	"verif/internal/rawc"
@@ -93,6 +94,24 @@ type Node struct {
 	Target  []byte   `json:"target,omitempty"`
 	Src     [][]byte `json:"src,omitempty"`
 	Mtime   uint32   `json:"mtime,omitempty"` // 0 = not set explicitly
+	Mnsec   uint32   `json:"mnsec,omitempty"` // sub-second part of the explicit mtime (only with Mtime)
+}
+
+// TimePrep: times the host gives the step's object in BOTH trees (os.Chtimes,
+// i.e. utimensat: with sub-second parts) right before the Twstat is sent, so
+// that the object's current times are the same known values on both sides.
+// Msec/Asec go to the object the path leads to (a symlink is followed); with
+// Link the symbolic link itself gets LMsec/LAsec (utimensat AT_SYMLINK_NOFOLLOW).
+type TimePrep struct {
+	Msec   uint32 `json:"msec"`
+	Mnsec  uint32 `json:"mnsec,omitempty"`
+	Asec   uint32 `json:"asec"`
+	Ansec  uint32 `json:"ansec,omitempty"`
+	Link   bool   `json:"link,omitempty"`
+	LMsec  uint32 `json:"lmsec,omitempty"`
+	LMnsec uint32 `json:"lmnsec,omitempty"`
+	LAsec  uint32 `json:"lasec,omitempty"`
+	LAnsec uint32 `json:"lansec,omitempty"`
 }
 
 // WriteOp is one Twrite / WriteAt pair.
@@ -154,6 +173,21 @@ type Step struct {
 	Mtime    uint32 `json:"mtime,omitempty"`
 	SetAtime bool   `json:"setatime,omitempty"` // only together with SetMtime
 	Atime    uint32 `json:"atime,omitempty"`
+
+	// wstat time values RELATIVE to the state of tree A at the moment the
+	// Twstat is sent (resolved by the executor, after Prep / Replace / Stale):
+	// MRel names where the Mtime value comes from — "cur": the mtime second of
+	// the object the path leads to (stat), "link": of the object itself (lstat:
+	// the symbolic link's own), "parent": of the parent directory, "atime": the
+	// object's atime second — and MOff is added to it; ARel likewise for Atime
+	// ("cur": the object's atime second, "mtime": its mtime second, "link": the
+	// link's own atime). "" or an object that cannot be stat'ed: Mtime / Atime
+	// are used as given. The resolved values are written back into the step.
+	Prep *TimePrep `json:"prep,omitempty"`
+	MRel string    `json:"mrel,omitempty"`
+	MOff int32     `json:"moff,omitempty"`
+	ARel string    `json:"arel,omitempty"`
+	AOff int32     `json:"aoff,omitempty"`
 }
 
 type Case struct {
@@ -507,7 +541,7 @@ func buildTree(root string, nodes []Node) error {
 	for i := range nodes {
 		n := &nodes[i]
 		if n.Mtime != 0 && hasMode(n.Kind) {
-			if err := os.Chtimes(under(root, n.Path), time.Time{}, time.Unix(int64(n.Mtime), 0)); err != nil {
+			if err := os.Chtimes(under(root, n.Path), time.Time{}, time.Unix(int64(n.Mtime), int64(n.Mnsec))); err != nil {
 				return err
 			}
 		}
@@ -553,6 +587,7 @@ type Outcome struct {
 	Result   string // "ok" or an errno name (of the B operation)
 	BFailed  bool
 	Touched  bool     // the step changed an object created earlier in the same history
+	RelTime  bool     // a wstat whose time values were taken from the object's current state
 	Attr     string   // host-prepared attributes of the objects the step touches ("" = none)
 	Known    []string // listed findings observed (already reported with hx.Known by the caller)
 	KnownMsg []string
@@ -744,9 +779,9 @@ func newMachine(c *Case, known func(string) bool) (*machine, error) {
 	// explicit initial mtimes
 	for i := range m.entB {
 		b := &m.entB[i]
-		if b.Mnsec == 0 && b.Rel != "" {
+		if b.Rel != "" {
 			for j := range c.Tree {
-				if c.Tree[j].Mtime != 0 && relOf(c.Tree[j].Path) == b.Rel && int64(c.Tree[j].Mtime) == b.Msec {
+				if c.Tree[j].Mtime != 0 && relOf(c.Tree[j].Path) == b.Rel && int64(c.Tree[j].Mtime) == b.Msec && int64(c.Tree[j].Mnsec) == b.Mnsec {
 					m.setM[b.Ino] = mtKey{b.Msec, b.Mnsec}
 				}
 			}
@@ -1260,6 +1295,11 @@ func (m *machine) execCreate(o *Outcome, s *Step) error {
 		if replaced, err = m.replace(o, s, h); err != nil {
 			return err
 		}
+	}
+	if s.Kind == "link" && s.Replace != "" {
+		// fids designate paths: when the link source is the replaced object
+		// itself, the source is what the path holds now
+		srcIno, _ = inoOf(under(m.A, s.Src))
 	}
 	if pi, ok := inoOf(under(m.B, s.Path)); ok && m.created[pi] {
 		o.Touched = true
@@ -1803,6 +1843,12 @@ func (m *machine) execWstat(o *Outcome, s *Step) error {
 	}
 	parentB := tB[:strings.LastIndexByte(tB, '/')]
 	oldName := string(s.Path[len(s.Path)-1])
+	if s.Prep != nil {
+		if err := m.prepTimes(s, tA, tB); err != nil {
+			return err
+		}
+	}
+	relClass := m.resolveTimes(o, s, tA)
 	o.Attr = joinAttr("on", attrOf(tB))
 	if len(s.Name) > 0 {
 		o.Attr = joinAttr("on", attrOf(tB), "parent", attrOf(parentB), "onto", attrOf(parentB+"/"+string(s.Name)))
@@ -1856,9 +1902,9 @@ func (m *machine) execWstat(o *Outcome, s *Step) error {
 	}
 	if s.SetMtime {
 		if s.SetAtime {
-			parts = append(parts, "mtime+atime")
+			parts = append(parts, "mtime+atime"+relClass)
 		} else {
-			parts = append(parts, "mtime")
+			parts = append(parts, "mtime"+relClass)
 		}
 	}
 	o.ArgClass = kind + " " + strings.Join(parts, "+")
@@ -1872,6 +1918,9 @@ func (m *machine) execWstat(o *Outcome, s *Step) error {
 		o.Label = kind + " combo " + strings.Join(f, "+")
 	}
 	o.Label = strings.Replace(o.Label, "name:len255:", "name:plain:", 1)
+	if relClass != "" {
+		o.Label = strings.Replace(o.Label, relClass, ":relative", 1)
+	}
 	if s.Stale {
 		o.ArgClass += " stale"
 		o.Label = kind + " stale"
@@ -1959,6 +2008,9 @@ func (m *machine) execWstat(o *Outcome, s *Step) error {
 			m.setM[sb.Ino] = mtKey{int64(sb.Mtim.Sec), int64(sb.Mtim.Nsec)}
 		}
 	}
+	if s.Prep != nil && errB != nil {
+		return harnessf("%s: a wstat with host-prepared times fails in B (%v); the generator must not produce it", what, errB)
+	}
 	if err := m.compare(what); err != nil {
 		return err
 	}
@@ -1990,6 +2042,153 @@ func (m *machine) execWstat(o *Outcome, s *Step) error {
 	return nil
 }
 
+// lutimes sets the times of the object itself (a symbolic link is not followed).
+func lutimes(p string, asec, ansec, msec, mnsec uint32) error {
+	ts := [2]syscall.Timespec{{Sec: int64(asec), Nsec: int64(ansec)}, {Sec: int64(msec), Nsec: int64(mnsec)}}
+	bp, err := syscall.BytePtrFromString(p)
+	if err != nil {
+		return err
+	}
+	const atFdcwd, atSymlinkNofollow = -100, 0x100
+	at := atFdcwd
+	if _, _, e := syscall.Syscall6(syscall.SYS_UTIMENSAT, uintptr(at), uintptr(unsafe.Pointer(bp)), uintptr(unsafe.Pointer(&ts[0])), atSymlinkNofollow, 0, 0); e != 0 {
+		return e
+	}
+	return nil
+}
+
+// prepTimes gives the step's object the same explicit times in both trees.
+func (m *machine) prepTimes(s *Step, tA, tB string) error {
+	p := s.Prep
+	if s.Stale || s.Replace != "" {
+		return harnessf("wstat step with host-prepared times on a stale / replaced object")
+	}
+	for _, path := range []string{tA, tB} {
+		if p.Link {
+			if err := lutimes(path, p.LAsec, p.LAnsec, p.LMsec, p.LMnsec); err != nil {
+				return harnessf("preparing the link's times of %s: %v", q(path), err)
+			}
+		}
+		if err := os.Chtimes(path, time.Unix(int64(p.Asec), int64(p.Ansec)), time.Unix(int64(p.Msec), int64(p.Mnsec))); err != nil {
+			return harnessf("preparing the times of %s: %v", q(path), err)
+		}
+	}
+	// both are explicitly set mtimes from now on: A must show what B shows
+	// for as long as B shows the prepared value
+	stats := []func(string) (os.FileInfo, error){os.Stat}
+	if p.Link {
+		stats = append(stats, os.Lstat)
+	}
+	for _, st := range stats {
+		fi, err := st(tB)
+		if err != nil {
+			return harnessf("stat after preparing times: %v", err)
+		}
+		sb := fi.Sys().(*syscall.Stat_t)
+		m.setM[sb.Ino] = mtKey{int64(sb.Mtim.Sec), int64(sb.Mtim.Nsec)}
+	}
+	return nil
+}
+
+// resolveTimes turns the relative time values of a wstat step into numbers,
+// from what tree A (the tree the server looks at) shows right now, and returns
+// the class of the relation for the evidence ("" for plain values).
+func (m *machine) resolveTimes(o *Outcome, s *Step, tA string) string {
+	if !s.SetMtime || (s.MRel == "" && s.ARel == "") {
+		return ""
+	}
+	clamp := func(v int64) uint32 {
+		if v < 0 {
+			v = 0
+		}
+		if v >= 0xFFFFFFFF { // 0xFFFFFFFF itself means "don't touch"
+			v = 0xFFFFFFFE
+		}
+		return uint32(v)
+	}
+	tm := func(fi os.FileInfo, err error, atime bool) (int64, int64, bool) {
+		if err != nil {
+			return 0, 0, false
+		}
+		sb := fi.Sys().(*syscall.Stat_t)
+		if atime {
+			return int64(sb.Atim.Sec), int64(sb.Atim.Nsec), true
+		}
+		return int64(sb.Mtim.Sec), int64(sb.Mtim.Nsec), true
+	}
+	parentA := tA[:strings.LastIndexByte(tA, '/')]
+	fiT, errT := os.Stat(tA)
+	fiL, errL := os.Lstat(tA)
+	fiP, errP := os.Lstat(parentA)
+	class := ""
+	off := func(d int32) string {
+		switch {
+		case d < 0:
+			return "-"
+		case d > 0:
+			return "+"
+		}
+		return ""
+	}
+	if s.MRel != "" {
+		var sec int64
+		ok := false
+		switch s.MRel {
+		case "cur":
+			sec, _, ok = tm(fiT, errT, false)
+		case "link":
+			sec, _, ok = tm(fiL, errL, false)
+		case "parent":
+			sec, _, ok = tm(fiP, errP, false)
+		case "atime":
+			sec, _, ok = tm(fiT, errT, true)
+		}
+		if ok {
+			s.Mtime = clamp(sec + int64(s.MOff))
+			class += ":m=" + s.MRel + off(s.MOff)
+			o.RelTime = true
+		}
+	}
+	if s.SetAtime && s.ARel != "" {
+		var sec int64
+		ok := false
+		switch s.ARel {
+		case "cur":
+			sec, _, ok = tm(fiT, errT, true)
+		case "mtime":
+			sec, _, ok = tm(fiT, errT, false)
+		case "link":
+			sec, _, ok = tm(fiL, errL, true)
+		}
+		if ok {
+			s.Atime = clamp(sec + int64(s.AOff))
+			class += ":a=" + s.ARel + off(s.AOff)
+			o.RelTime = true
+		}
+	}
+	if class == "" {
+		return ""
+	}
+	// what makes "the time it already has" differ from a plain value: a
+	// sub-second part, a link whose own mtime is not its target's
+	if _, ns, ok := tm(fiT, errT, false); ok && ns != 0 {
+		class += ":subsec"
+	}
+	if errT == nil && errL == nil && fiL.Mode()&os.ModeSymlink != 0 {
+		ts, tn, _ := tm(fiT, errT, false)
+		ls, ln, _ := tm(fiL, errL, false)
+		switch {
+		case ts != ls:
+			class += ":link-differs"
+		case tn != ln:
+			class += ":link-same-second"
+		default:
+			class += ":link-equal"
+		}
+	}
+	return class
+}
+
 func wstatText(s *Step) string {
 	var p []string
 	if s.SetMode {
@@ -2001,11 +2200,23 @@ func wstatText(s *Step) string {
 	if s.SetLen {
 		p = append(p, fmt.Sprintf("length=%d", s.Length))
 	}
+	rel := func(r string, d int32) string {
+		if r == "" {
+			return ""
+		}
+		return fmt.Sprintf(" (%s%+d)", r, d)
+	}
 	if s.SetMtime {
-		p = append(p, fmt.Sprintf("mtime=%d", s.Mtime))
+		p = append(p, fmt.Sprintf("mtime=%d%s", s.Mtime, rel(s.MRel, s.MOff)))
 	}
 	if s.SetAtime {
-		p = append(p, fmt.Sprintf("atime=%d", s.Atime))
+		p = append(p, fmt.Sprintf("atime=%d%s", s.Atime, rel(s.ARel, s.AOff)))
+	}
+	if s.Prep != nil {
+		p = append(p, fmt.Sprintf("after the host set mtime %d.%09d atime %d.%09d", s.Prep.Msec, s.Prep.Mnsec, s.Prep.Asec, s.Prep.Ansec))
+		if s.Prep.Link {
+			p = append(p, fmt.Sprintf("and the link's own mtime %d.%09d", s.Prep.LMsec, s.Prep.LMnsec))
+		}
 	}
 	return strings.Join(p, " ")
 }
